@@ -423,6 +423,7 @@ pub struct Driver {
     pub grants: HashMap<&'static str, usize>,
     pub seen: HashMap<&'static str, usize>,
     pub diverged: bool,
+    pub sig_thread: Option<std::thread::JoinHandle<Box<dyn FnMut() + Send>>>,
 }
 
 fn th_cli(c: i64) -> String {
@@ -445,7 +446,8 @@ impl Driver {
             }
             Err(e) => {
                 cl.ended = true;
-                let refused = e.kind() == std::io::ErrorKind::ConnectionRefused;
+                // refused, or accepted by the kernel and reset by the closing listener before connect() returned
+                let refused = e.kind() == std::io::ErrorKind::ConnectionRefused || e.kind() == std::io::ErrorKind::ConnectionReset;
                 if !refused {
                     self.problems.push(format!("connect {} failed: {}", c, e));
                 }
@@ -620,6 +622,26 @@ impl Driver {
         }
     }
 
+    /// the signal from another thread after `delay_us`, so that it really races with the following steps
+    pub fn signal_async(&mut self, delay_us: u64) {
+        if self.sig_sent {
+            return;
+        }
+        self.sig_sent = true;
+        let ctx = self.ctx.clone();
+        let kind = self.cfg.sigkind.clone();
+        let mut f = std::mem::replace(&mut self.server.signal, Box::new(|| {}));
+        self.sig_thread = Some(std::thread::spawn(move || {
+            let t0 = Instant::now();
+            while (t0.elapsed().as_micros() as u64) < delay_us {
+                std::hint::spin_loop();
+            }
+            ctx.record("Sig_Send", "drv", -1, 0, &kind);
+            f();
+            f // keep the sender alive
+        }));
+    }
+
     pub fn signal(&mut self) {
         if self.sig_sent {
             return;
@@ -668,11 +690,13 @@ impl Driver {
             "rest" => self.send_rest(c, if s2.is_empty() { "close" } else { &s2 }),
             "close" => self.close(c),
             "sig" => self.signal(),
+            "sig_async" => self.signal_async(c.max(0) as u64),
             "finish" => self.ctx.finish(c),
             "recv" => self.recv_blocking(c),
             "recvpart" => self.recv_part(c),
             "eof" => self.expect_eof(c),
             "sleep" => std::thread::sleep(Duration::from_millis(c.max(0) as u64)),
+            "fakehang" => self.hang = true, // self-test of the driver's restart path only
             "await" => {
                 // ["await", c, "Event"]: the event must be in the log (searching from the start)
                 if self.cfg.rt == "tokio" && self.sig_sent && self.ctx.gates.lock().unwrap().mode.get("acc") == Some(&Mode::StepAll) {
@@ -765,6 +789,11 @@ impl Driver {
         // 1. the signal, if the script did not send it
         let t_sig = Instant::now();
         self.signal();
+        if let Some(h) = self.sig_thread.take() {
+            if let Ok(f) = h.join() {
+                self.server.signal = f;
+            }
+        }
         // 2. no gate stays closed; run must return (escalating waits; only "did not return" matters)
         self.ctx.free_all();
         let returned = self.await_ev("Run_Return", -1, 0);
@@ -967,11 +996,12 @@ pub fn matrix_scenario(rng: &mut hvutil::Rng, idx: usize, rt: &str) -> Cfg {
         }
         // the connection is served only when it was accepted before the signal and a worker is free
         let served = before_sig && (rt == "tokio" || occ < nw);
-        steps.push(s.remove(0)); // connect
         if pos == "concurrent" && !sig_done && (c as usize) == sig_at {
-            steps.push(json!(["sig"])); // right behind the connect, not waiting for the accept
+            // from another thread, 0..400 us later: races with this connect and the following sends
+            steps.push(json!(["sig_async", rng.below(400)]));
             sig_done = true;
         }
+        steps.push(s.remove(0)); // connect
         steps.append(&mut s);
         if served && !(pos == "concurrent" && (c as usize) == sig_at) {
             steps.append(&mut waits);
@@ -1134,7 +1164,7 @@ where
         let port = pick_port(rng);
         let server = start(&cfg, ctx.clone(), port);
         let target: SocketAddr = if cfg.bind.contains(':') { format!("[::1]:{}", port) } else { format!("127.0.0.1:{}", port) }.parse().unwrap();
-        let d = Driver { ctx: ctx.clone(), cfg: cfg.clone(), port, target, clis: HashMap::new(), server, sig_sent: false, problems: vec![], hang: false, grants: HashMap::new(), seen: HashMap::new(), diverged: false };
+        let d = Driver { ctx: ctx.clone(), cfg: cfg.clone(), port, target, clis: HashMap::new(), server, sig_sent: false, problems: vec![], hang: false, grants: HashMap::new(), seen: HashMap::new(), diverged: false, sig_thread: None };
         let up = wait_cond(&ctx, || listening(port) || ctx.has_event("Run_Return"));
         if up && !ctx.has_event("Run_Return") {
             break (ctx, d);
